@@ -111,6 +111,9 @@ def ops_for(x, level="full"):
                 add(Op(f"fuse{grp}[{mode}]", lambda x, g=grp, m=mode: x.fuse(*g, mode=m), inplace=lambda y, g=grp, m=mode: y.fuse(*g, mode=m, inplace=True), tags=("fuse",)))
     if n >= 2:
         add(Op("sr.fuse((0,1))", lambda x: sr.fuse(x, (0, 1)), tags=("fuse",)))
+        # empty groups: expanded to singlet axes (also in place)
+        add(Op("fuse((0,1),())", lambda x: x.fuse((0, 1), ()), inplace=lambda y: y.fuse((0, 1), (), inplace=True), tags=("fuse",)))
+        add(Op("fuse((),(1,0))", lambda x: x.fuse((), (1, 0)), inplace=lambda y: y.fuse((), (1, 0), inplace=True), tags=("fuse",)))
         # history inside one step: fuse x (its index objects get hashed), then fuse a conjugate / adjoint copy the same way
         add(Op("fuse((0,1));conj.fuse((0,1))", lambda x: (x.fuse((0, 1)), x.conj().fuse((0, 1)))[1], tags=("fuse",)))
         add(Op("fuse((1,0),(2..));dagger.dagger.fuse", lambda x: (x.fuse((1, 0)), x.dagger().dagger().fuse((1, 0)))[1], tags=("fuse",)))
